@@ -1,3 +1,4 @@
+\* 2 threads x (1 WAL entity + 1 aggregate) x 2 operations
 CONSTANTS
   t1 = t1
   t2 = t2
@@ -7,11 +8,11 @@ CONSTANTS
   w1 = w1
   n1 = n1
   Threads = {t1,t2}
-  Entities = {e1,e2}
-  WalEntities = {}
+  Entities = {w1,e1}
+  WalEntities = {w1}
   NewEntities = {}
-  MaxOps = 3
-  Ops = {"ok","noop","reject","presave_fail","read"}
+  MaxOps = 2
+  Ops = {"ok","reject","snap","read"}
   LockMode = "write"
 SPECIFICATION Spec
 INVARIANT Safety
